@@ -140,6 +140,12 @@ def gen_scenario(rng, nops=None):
             if v > nv_:
                 newest[k] = (v, d)
                 hist[k].append((v, d))
+            else:
+                # a late / duplicate publish repeats the payload that version had (one payload per version)
+                same = [x for (vv, x) in hist[k] if vv == v]
+                if not same:
+                    continue
+                d = same[0]
             maybe_flip(epoch)
             lines.append(f"pub {k} {v} {epoch} {d}")
     # final full polls: the backend has caught up with every publisher
